@@ -235,16 +235,31 @@ GroupJudge(kind, acl, g, og) ==
                     UNION { SeqJudge(ie.subs[k], LAMBDA lf : Readable(SubRules(kind)[k], acl, lf), oe.subs[k], TRUE) : k \in DOMAIN oe.subs }
              : j \in DOMAIN og.items }
 
-FlagOK(kind, acl, in, out, flag) ==
+(* The flag on ENTRY.  A reply object is re-used: blockingquery.Query runs the endpoint's query function  *)
+(* again and again against the SAME reply (payload re-populated, QueryMeta kept) and filters it after     *)
+(* every run, so `prior` - the value ResultsFilteredByACLs has when Filter is entered - may be "yes".       *)
+(* The specified flag on exit is a function of this evaluation's removal alone, WHATEVER the prior value. *)
+(*   FlagExact     the flag contradicts what this evaluation removed, and the prior value does not       *)
+(*                 explain it                                                                             *)
+(*   FlagNotStale  nothing was removed by this evaluation, yet the flag is "yes" because it already was   *)
+(*                 on entry (raise-only assignment: `if removed { flag = true }`)                         *)
+FlagOK(kind, acl, in, out, prior, flag) ==
   IF ~HasFlag(kind) THEN TRUE
   ELSE IF Removed(kind, in, out) THEN (flag = "yes" \/ SilentOnly(kind, acl, in, out))
   ELSE flag = "no"
+FlagStale(kind, acl, in, out, prior, flag) ==
+  HasFlag(kind) /\ ~Removed(kind, in, out) /\ prior = "yes" /\ flag = "yes"
 
-Judge(kind, acl, in, out, flag) ==
+\* the two assignment styles found in the type switch, as functions of (prior, removed)
+FlagAssigned(prior, removed)  == removed                   \* v.ResultsFilteredByACLs = f.filterX(...)
+FlagRaiseOnly(prior, removed) == prior \/ removed          \* if f.filterX(...) { v.ResultsFilteredByACLs = true }  - stale on re-evaluation
+
+Judge(kind, acl, in, out, prior, flag) ==
        UNION { GroupJudge(kind, acl, in[i], GetG(out, in[i].key)) : i \in DOMAIN in }
   \cup F("NothingUnreadable", \A j \in DOMAIN out : \E i \in DOMAIN in : in[i].key = out[j].key)   \* no invented group
   \cup F("NothingDropped", \A i \in DOMAIN in : HasG(out, in[i].key) \/ kind \in DynKinds)          \* statement silent on empty map entries
-  \cup F("FlagExact", FlagOK(kind, acl, in, out, flag))
+  \cup (IF FlagStale(kind, acl, in, out, prior, flag) THEN {"FlagNotStale"}
+        ELSE F("FlagExact", FlagOK(kind, acl, in, out, prior, flag)))
 
 RefFlag(kind, acl, in) ==
   IF ~HasFlag(kind) THEN "na"
